@@ -13,6 +13,7 @@ package main
 // computed beyond constant folding of comparisons.
 
 import (
+	"go/ast"
 	"fmt"
 	"go/constant"
 	"go/token"
@@ -702,6 +703,29 @@ func (s *Sim) execBlock(rc *runCtx, it workItem) []workItem {
 					st.vals[x] = avSymbol(fmt.Sprintf("len:%d", c))
 				}
 			}
+		case *ssa.Lookup:
+			delete(st.vals, x)
+			// a lookup with a known key in a package-level table of constants
+			if ka := s.eval(st, x.Index); ka.K == avConst && ka.C.Kind() == constant.String {
+				if ld, ok := x.X.(*ssa.UnOp); ok {
+					if g, ok := ld.X.(*ssa.Global); ok {
+						if tbl, ok := s.p.constMapLiteral(g); ok {
+							v, hit := tbl[constant.StringVal(ka.C)]
+							var av AV
+							if hit {
+								av = AV{K: avConst, C: v}
+							} else if mt, isMap := g.Type().(*types.Pointer).Elem().Underlying().(*types.Map); isMap {
+								av = zeroAV(mt.Elem())
+							}
+							if x.CommaOk {
+								st.vals[x] = avTup(av, avBool(hit))
+							} else if av.K != avTop {
+								st.vals[x] = av
+							}
+						}
+					}
+				}
+			}
 		case *ssa.Slice:
 			delete(st.vals, x)
 			if s.TrackLens && x.Low == nil && x.High == nil {
@@ -1030,6 +1054,10 @@ func (s *Sim) doCall(rc *runCtx, it workItem, st *State, call ssa.CallInstructio
 					return []*State{st}
 				}
 			case "len":
+				if a := s.eval(st, args[0]); a.K == avConst && a.C.Kind() == constant.String {
+					SetCallResult(st, call, avInt(int64(len(constant.StringVal(a.C)))))
+					return []*State{st}
+				}
 				switch lenOf(args[0]) {
 				case 0:
 					SetCallResult(st, call, avInt(0))
@@ -1344,3 +1372,81 @@ func (s *Sim) sentinelError(g *ssa.Global) bool {
 }
 
 var sentinelCache = map[*ssa.Global]bool{}
+
+// constMapLiteral returns the contents of a package-level `map[string]T{...}` literal whose keys
+// and values are constants (a name table), from the syntax tree and the type checker's constant
+// values; ok is false when the variable is not such a table or is assigned anywhere else.
+var constMapCache = map[*ssa.Global]map[string]constant.Value{}
+
+func (p *Prog) constMapLiteral(g *ssa.Global) (map[string]constant.Value, bool) {
+	if t, ok := constMapCache[g]; ok {
+		return t, t != nil
+	}
+	constMapCache[g] = nil
+	if g.Pkg == nil || !strings.HasPrefix(g.Pkg.Pkg.Path(), modPath) {
+		return nil, false
+	}
+	rel := strings.TrimPrefix(strings.TrimPrefix(g.Pkg.Pkg.Path(), modPath), "/")
+	if rel == "" {
+		return nil, false
+	}
+	var lit *ast.CompositeLit
+	info := p.TypesInfo(rel)
+	for _, f := range p.Syntax(rel) {
+		for _, d := range f.Decls {
+			gd, ok := d.(*ast.GenDecl)
+			if !ok {
+				continue
+			}
+			for _, sp := range gd.Specs {
+				vs, ok := sp.(*ast.ValueSpec)
+				if !ok {
+					continue
+				}
+				for i, n := range vs.Names {
+					if n.Name == g.Name() && i < len(vs.Values) {
+						lit, _ = vs.Values[i].(*ast.CompositeLit)
+					}
+				}
+			}
+		}
+	}
+	if lit == nil || info == nil {
+		return nil, false
+	}
+	out := map[string]constant.Value{}
+	for _, el := range lit.Elts {
+		kv, ok := el.(*ast.KeyValueExpr)
+		if !ok {
+			return nil, false
+		}
+		ktv, ok1 := info.Types[kv.Key]
+		vtv, ok2 := info.Types[kv.Value]
+		if !ok1 || !ok2 || ktv.Value == nil || vtv.Value == nil || ktv.Value.Kind() != constant.String {
+			return nil, false
+		}
+		out[constant.StringVal(ktv.Value)] = vtv.Value
+	}
+	// never written after initialisation
+	for fn := range p.Funcs {
+		if fn.Pkg != g.Pkg || fn.Blocks == nil || fn.Name() == "init" {
+			continue
+		}
+		written := false
+		eachInstr(fn, func(in ssa.Instruction) {
+			if mu, ok := in.(*ssa.MapUpdate); ok {
+				if ld, ok := mu.Map.(*ssa.UnOp); ok && ld.X == ssa.Value(g) {
+					written = true
+				}
+			}
+			if st, ok := in.(*ssa.Store); ok && st.Addr == ssa.Value(g) {
+				written = true
+			}
+		})
+		if written {
+			return nil, false
+		}
+	}
+	constMapCache[g] = out
+	return out, true
+}
